@@ -268,8 +268,10 @@ class World:
             k = RM.round_to(k, q, mode)
         if k <= 0:
             raise OutOfDomain("non-positive factor")
-        if not t.has_ref:
-            raise OutOfDomain("scaled unit in a type without reference unit")
+        # in a type without reference unit the new unit is k times the
+        # parent in the parent's own base element(s); nothing converts
+        # between the two without a converter, but products and quotients
+        # see the scale
         self.units[sym] = UnitM(sym, tname, k * p.factor, p.vec, "scaled")
         return self.units[sym]
 
